@@ -41,6 +41,19 @@ def run(args):
             server.requests.clear()
             server.set(200, {"content-type": "application/json"}, b"null")
             res = drvlib.call_method(getattr(tc, name), kwargs)
+            if res["kind"] == "raise" and not server.requests:
+                # e.g. an overloaded multi-content operation needs one of its optional body arguments: retry with every argument
+                kw2 = {}
+                for p in sig.parameters.values():
+                    if p.name == "self" or p.kind in (p.VAR_POSITIONAL, p.VAR_KEYWORD) or p.name == "content_type":
+                        continue
+                    kw2[p.name] = drvlib.synth(hints.get(p.name, p.annotation))
+                for drop in ([], ["files", "data", "form_data"], ["body"]):
+                    kw3 = {k: v for k, v in kw2.items() if k not in drop}
+                    server.requests.clear()
+                    res = drvlib.call_method(getattr(tc, name), kw3)
+                    if server.requests:
+                        break
             m = {"hits": [[r["method"], r["path"]] for r in server.requests],
                  "valid_identifier": name.isidentifier() and not keyword.iskeyword(name),
                  "nature": "asyncgen" if inspect.isasyncgenfunction(fn) else ("coroutine" if inspect.iscoroutinefunction(fn) else "other")}
